@@ -478,6 +478,32 @@ fn do_run(rc: &RunCfg<'_>, run: u64) {
                 note_case(p.name, &o, &f, 0);
                 run_digest = fnv(run_digest, o.digest);
             }
+            // ... the same, with the panic payload carrying the value's stored strong handles
+            // out of the teardown (dropped by the program once the call has unwound)
+            for k in 0..n {
+                if base.dtors[k as usize].own_slots.is_empty() {
+                    continue;
+                }
+                let f = Faults { panic_carry_at: vec![k], inline: base.inline.clone(), ..Faults::default() };
+                let head = ctx_head(p.name, rc.seed, run, 2000 + k as u64, &[layout_seed], &f);
+                let o = execute(&head, Source::Explicit(&base.ops), &f, layout_seed, &opts);
+                note_case(p.name, &o, &f, 0);
+                run_digest = fnv(run_digest, o.digest);
+            }
+            // ... two panics in one history: an end-of-destructor panic at k, a start-of-
+            // destructor panic at a later position
+            if n >= 2 {
+                let mut prng = Rng(mix(rc.seed, run, 13));
+                for _ in 0..(n.min(4)) {
+                    let k = prng.below(n as usize - 1) as u32;
+                    let j = k + 1 + prng.below((n - k - 1) as usize) as u32;
+                    let f = Faults { panic_at: vec![k], panic_early_at: vec![j], inline: base.inline.clone(), ..Faults::default() };
+                    let head = ctx_head(p.name, rc.seed, run, 3000 + (k * 64 + j) as u64, &[layout_seed], &f);
+                    let o = execute(&head, Source::Explicit(&base.ops), &f, layout_seed, &opts);
+                    note_case(p.name, &o, &f, 0);
+                    run_digest = fnv(run_digest, o.digest);
+                }
+            }
             // ... and a panic in every invocation of the value's Clone impl (make_mut)
             for c in 0..base.clones {
                 let f = Faults { clone_panic_at: vec![c], inline: base.inline.clone(), ..Faults::default() };
@@ -1119,6 +1145,28 @@ fn nested_cmd(a: &Args) -> i32 {
     0
 }
 
+fn held_cmd(a: &Args) -> i32 {
+    let shape = a.get("--shape").unwrap_or("ring").to_string();
+    let n = a.num("--n", 100) as usize;
+    let chords = a.num("--chords", 0) as usize;
+    let seed = a.num("--seed", 1);
+    let samples = a.num("--samples", 200) as usize;
+    shared::init();
+    alloc::reset(1, false);
+    let shape2 = shape.clone();
+    let th = std::thread::Builder::new().stack_size(256 * 1024).spawn(move || alloc::sut(|| scale::held_sweep(&shape2, n, chords, seed, samples)));
+    let bad = match th.map(|h| h.join()) {
+        Ok(Ok(b)) => b,
+        _ => {
+            out("{\"type\":\"held\",\"error\":\"panic\"}\n");
+            return 1;
+        }
+    };
+    let f: Vec<String> = bad.iter().map(|(x, e, d, dd)| format!("{{\"held\":{x},\"destroyed_while_held\":{e},\"destroyed\":{d},\"double\":{dd}}}")).collect();
+    out(&format!("{{\"type\":\"held\",\"shape\":\"{shape}\",\"n\":{n},\"chords\":{chords},\"samples\":{},\"failures\":[{}]}}\n", samples.min(n), f.join(",")));
+    0
+}
+
 fn soak_cmd(a: &Args) -> i32 {
     let max_pow = a.num("--max-pow", 24) as u32;
     shared::init();
@@ -1218,6 +1266,7 @@ fn main() {
         "replay" => replay(&a),
         "scale" => scale_cmd(&a),
         "soak" => soak_cmd(&a),
+        "held" => held_cmd(&a),
         "nested" => nested_cmd(&a),
         "huge" => huge_cmd(&a),
         "after-big" => after_big_cmd(&a),
